@@ -628,6 +628,16 @@ func reflectStubs() map[string]StubFn {
 	})
 	xt("NumIn", func(c *CallCtx, t types.Type) { c.Return(BVC(64, uint64(t.Underlying().(*types.Signature).Params().Len()))) })
 	xt("NumOut", func(c *CallCtx, t types.Type) { c.Return(BVC(64, uint64(t.Underlying().(*types.Signature).Results().Len()))) })
+	// base/reflect.KindToType: the reflect.Type of a basic kind (a table of r.TypeOf(T(0)) values in the real code)
+	m["github.com/cosmos72/gomacro/base/reflect.KindToType"] = func(c *CallCtx) {
+		k := reflect.Kind(c.ex.concreteInt(c.args[0].(*Term), "KindToType kind"))
+		t := basicTypeByName(k.String())
+		if t == nil {
+			c.Return(Iface{})
+			return
+		}
+		c.Return(Iface{T: rtypeImplType, V: RType{T: t}})
+	}
 	// the universe object itself is opaque: only its type constructors are modelled
 	xt("Universe", func(c *CallCtx, t types.Type) { c.Return(Ptr{Obj: c.ex.alloc(c.st, &StructV{})}) })
 	m["(*github.com/cosmos72/gomacro/xreflect.Universe).PtrTo"] = func(c *CallCtx) {
